@@ -146,13 +146,15 @@ pub struct Cfg {
     pub conc: usize,
     pub seed: u64,
     pub sync_always: bool,
+    /// wall clock seen by the store: 0 real, 1 runs backwards (an hour per reading), 2 stands still
+    pub clock: u8,
 }
 impl Cfg {
     pub fn new(mfs: u64, thr: Thr, seed: u64) -> Cfg {
-        Cfg { mfs, thr, cache: 1, conc: 1, seed, sync_always: false }
+        Cfg { mfs, thr, cache: 1, conc: 1, seed, sync_always: false, clock: 0 }
     }
     pub fn to_json(&self) -> Value {
-        json!({"max_file_size": self.mfs, "thresholds": self.thr.name(), "readers_cache_size": self.cache, "concurrency": self.conc, "hash_seed": self.seed, "sync_always": self.sync_always})
+        json!({"max_file_size": self.mfs, "thresholds": self.thr.name(), "readers_cache_size": self.cache, "concurrency": self.conc, "hash_seed": self.seed, "sync_always": self.sync_always, "wall_clock": self.clock})
     }
     pub fn from_json(v: &Value) -> Option<Cfg> {
         Some(Cfg {
@@ -162,6 +164,7 @@ impl Cfg {
             conc: v["concurrency"].as_u64()? as usize,
             seed: v["hash_seed"].as_u64()?,
             sync_always: v["sync_always"].as_bool().unwrap_or(false),
+            clock: v["wall_clock"].as_u64().unwrap_or(0) as u8,
         })
     }
     pub fn build(&self, dir: &Path) -> Config {
@@ -494,35 +497,44 @@ fn check_dir_invariants(cfg: &Cfg, before: &BTreeMap<String, Vec<u8>>, after: &B
 /// C14 trace part, evaluated over the recorded calls of a whole execution that started from an
 /// empty directory (or from `initial_max_id` for recovered directories).
 pub fn check_trace_invariants(log: &[Call], initial_max_id: Option<u64>, out: &mut Vec<(String, String, Option<usize>)>) {
-    let mut max_data: Option<u64> = initial_max_id;
-    let mut last_data: Option<u64> = None;
-    let mut hinted: BTreeSet<u64> = BTreeSet::new();
+    // highest id the directory has ever contained (data or hint file), and which members of the
+    // newest id's pair this incarnation has created so far
+    let mut max_id: Option<u64> = initial_max_id;
+    let mut newest_pair: (bool, bool, u32) = (false, false, 0); // (data created, hint created, incarnation)
     let mut created_in: BTreeMap<String, u32> = BTreeMap::new();
     let mut inc = 0u32;
-    let want = libc::O_CREAT | libc::O_EXCL | libc::O_APPEND;
+    // "created exclusively": O_APPEND is not demanded, that files only grow at their end is checked
+    // on their contents (check_dir_invariants) and by the ban on pwrite / truncate / writable maps
+    let want = libc::O_CREAT | libc::O_EXCL;
     for c in log {
         match c {
             Call::Mark(m) => {
                 if let Some(n) = m.strip_prefix("incarnation:") {
                     inc = n.parse().unwrap_or(inc);
-                    last_data = None;
                 }
             }
             Call::Forbidden(m) => out.push(("C14:forbidden-call".into(), m.clone(), None)),
             Call::Create { path, flags } => {
                 created_in.insert(path.clone(), inc);
                 if flags & want != want || flags & libc::O_TRUNC != 0 {
-                    out.push(("C14:create-flags".into(), format!("{} created with flags {:#o} (want O_CREAT|O_EXCL|O_APPEND, no O_TRUNC)", path, flags), None));
+                    out.push(("C14:create-flags".into(), format!("{} created with flags {:#o} (want O_CREAT|O_EXCL, no O_TRUNC)", path, flags), None));
                 }
                 if let Some((id, is_data)) = parse_name(path) {
-                    if is_data {
-                        if max_data.map_or(false, |m| id <= m) {
-                            out.push(("C14:data-id-not-above-all-earlier-ids".into(), format!("{} created while the directory has already contained id {}", path, max_data.unwrap()), None));
+                    if max_id.map_or(true, |m| id > m) {
+                        // a new id, above everything the directory has ever contained
+                        max_id = Some(id);
+                        newest_pair = (is_data, !is_data, inc);
+                    } else if max_id == Some(id) && newest_pair.2 == inc && ((is_data && !newest_pair.0 && newest_pair.1) || (!is_data && !newest_pair.1 && newest_pair.0)) {
+                        // the second member of the pair that this incarnation has just started
+                        if is_data {
+                            newest_pair.0 = true;
+                        } else {
+                            newest_pair.1 = true;
                         }
-                        max_data = Some(max_data.map_or(id, |m| m.max(id)));
-                        last_data = Some(id);
-                    } else if last_data != Some(id) || !hinted.insert(id) {
-                        out.push(("C14:hint-id".into(), format!("{} created but the most recently created data file is {:?}", path, last_data), None));
+                    } else if is_data {
+                        out.push(("C14:data-id-not-above-all-earlier-ids".into(), format!("{} created while the directory has already contained id {}", path, max_id.unwrap()), None));
+                    } else {
+                        out.push(("C14:hint-id".into(), format!("{} created while the directory has already contained id {} (a hint file may only share the id of the data file this incarnation has just created)", path, max_id.unwrap()), None));
                     }
                 }
             }
@@ -600,6 +612,7 @@ pub fn run_word(case: &WordCase, dir: &Path) -> WordResult {
 
 fn run_word_here(prop: &str, cfg: Cfg, word: &[Op], keys: &[u8], o: Oracles, trailing: usize, preload: &[Op], dir: &Path) -> WordResult {
     iohook::set_seed(Some(cfg.seed));
+    iohook::wall_clock_mode(cfg.clock);
     let root = dir.to_string_lossy().to_string();
     rmrf(dir);
     std::fs::create_dir_all(dir).unwrap();
@@ -877,7 +890,7 @@ fn cache_conc_grid(seed: u64, thr: Thr) -> Vec<Cfg> {
                 if cache == 1 && conc == 1 {
                     continue;
                 }
-                v.push(Cfg { mfs, thr, cache, conc, seed, sync_always: false });
+                v.push(Cfg { mfs, thr, cache, conc, seed, sync_always: false, clock: 0 });
             }
         }
     }
@@ -938,6 +951,10 @@ pub fn plan(prop: &str, tier: Tier, seeds: &[u64]) -> Vec<Sweep> {
             }
         }
     };
+    // The wall clock is an environment answer (every entry carries a timestamp read from it): the
+    // same words with a clock that runs BACKWARDS (each reading an hour before the previous one)
+    // and with one that stands still. Which entry is current is decided by file and position.
+    let with_clocks = |cfgs: Vec<Cfg>| -> Vec<Cfg> { cfgs.into_iter().flat_map(|c| [Cfg { clock: 1, ..c }, Cfg { clock: 2, ..c }]).collect() };
     match prop {
         "C01" => {
             let alpha = vec![SET_A1, SET_A22, SET_B1, SET_BBIG, DEL_A, DEL_B, Op::Merge];
@@ -949,6 +966,7 @@ pub fn plan(prop: &str, tier: Tier, seeds: &[u64]) -> Vec<Sweep> {
             // (every read opens its file) and two pooled readers
             let cold: Vec<Cfg> = core_grid(&seeds[..1], &[Thr::All, Thr::Dead], &[0, 60, MFS_BIG]).into_iter().map(|c| Cfg { cache: 0, conc: 2, ..c }).collect();
             sweeps.push(Sweep { name: "wide-cold-readers".into(), alphabet: wide_ops(true, false), depth: tier.pick(2, 3), cfgs: cold, oracles: kv, keys: wide_keys.clone(), trailing_reopens: 0, preload: vec![] });
+            sweeps.push(Sweep { name: "clock".into(), alphabet: vec![SET_A1, SET_A22, SET_B1, SET_BBIG, DEL_A, DEL_B, Op::Merge], depth: tier.pick(4, 5), cfgs: with_clocks(core_grid(&seeds[..1], &[Thr::All, Thr::Dead], &[0, MFS_BIG])), oracles: kv, keys: main_keys.clone(), trailing_reopens: 0, preload: vec![] });
         }
         "C02" => {
             let alpha = vec![SET_A1, SET_A22, SET_B1, DEL_A, DEL_B, Op::Reopen];
@@ -960,6 +978,7 @@ pub fn plan(prop: &str, tier: Tier, seeds: &[u64]) -> Vec<Sweep> {
             // the same from a non-initial state: 8 earlier incarnations have left ids 0..7 behind, so
             // the words' entries land in files 8, 9, 10, 11, ... (across the 9 / 10 boundary)
             sweeps.push(Sweep { name: "many-files-from-id-8".into(), alphabet: vec![SET_A1, SET_A22, SET_B1, DEL_A, DEL_B, Op::Reopen], depth: tier.pick(5, 6), cfgs: core_grid(&seeds[..1], &[Thr::None], &[0]), oracles: o, keys: main_keys.clone(), trailing_reopens: 2, preload: vec![Op::Reopen; 8] });
+            sweeps.push(Sweep { name: "clock".into(), alphabet: vec![SET_A1, SET_A22, SET_B1, DEL_A, DEL_B, Op::Reopen], depth: tier.pick(4, 6), cfgs: with_clocks(core_grid(&seeds[..1], &[Thr::None], &mfss)), oracles: o, keys: main_keys.clone(), trailing_reopens: 2, preload: vec![] });
         }
         "C05" => {
             if tier == Tier::Quick {
@@ -970,6 +989,7 @@ pub fn plan(prop: &str, tier: Tier, seeds: &[u64]) -> Vec<Sweep> {
             }
             sweeps.push(Sweep { name: "cache-conc".into(), alphabet: full.clone(), depth: 4, cfgs: cache_conc_grid(seeds[0], Thr::Size27), oracles: kv, keys: main_keys.clone(), trailing_reopens: 0, preload: vec![] });
             after_merge(&mut sweeps, tier.pick(4, 5), kv);
+            sweeps.push(Sweep { name: "clock".into(), alphabet: full.clone(), depth: tier.pick(4, 5), cfgs: with_clocks(core_grid(&seeds[..1], &[Thr::All, Thr::Dead, Thr::Size27], &[0, MFS_BIG])), oracles: kv, keys: main_keys.clone(), trailing_reopens: 0, preload: vec![] });
             sweeps.push(Sweep { name: "wide".into(), alphabet: wide_ops(true, true), depth: tier.pick(2, 3), cfgs: core_grid(&seeds[..1], &[Thr::All, Thr::Size27], &[0, 60]), oracles: kv, keys: wide_keys.clone(), trailing_reopens: 0, preload: vec![] });
             let cold: Vec<Cfg> = core_grid(&seeds[..1], &[Thr::All, Thr::Size27], &[0, 60]).into_iter().map(|c| Cfg { cache: 0, conc: 2, ..c }).collect();
             sweeps.push(Sweep { name: "wide-cold-readers".into(), alphabet: wide_ops(true, true), depth: tier.pick(2, 3), cfgs: cold, oracles: kv, keys: wide_keys.clone(), trailing_reopens: 0, preload: vec![] });
@@ -978,6 +998,9 @@ pub fn plan(prop: &str, tier: Tier, seeds: &[u64]) -> Vec<Sweep> {
             let o = Oracles { c12: true, ..Default::default() };
             deep("core", full.clone(), 4, 5, core_grid(seeds, &all_thr, &mfss), o, 0);
             after_merge(&mut sweeps, tier.pick(3, 4), o);
+            sweeps.push(Sweep { name: "clock".into(), alphabet: full.clone(), depth: tier.pick(3, 4), cfgs: with_clocks(core_grid(&seeds[..1], &[Thr::All, Thr::Dead, Thr::Size27], &[0, MFS_BIG])), oracles: o, keys: main_keys.clone(), trailing_reopens: 0, preload: vec![] });
+            // key and value SHAPES (empty, binary, 300-byte keys; empty, CR/LF/NUL, 9 000- and 70 000-byte values) through a merge
+            sweeps.push(Sweep { name: "wide".into(), alphabet: wide_ops(true, false), depth: tier.pick(2, 3), cfgs: core_grid(&seeds[..1], &[Thr::All, Thr::Dead], &[0, MFS_BIG]), oracles: o, keys: wide_keys.clone(), trailing_reopens: 0, preload: vec![] });
         }
         "C13" => {
             let o = Oracles { c13: true, ..Default::default() };
@@ -988,6 +1011,7 @@ pub fn plan(prop: &str, tier: Tier, seeds: &[u64]) -> Vec<Sweep> {
                 deep("core", full.clone(), 5, 6, core_grid(seeds, &all_thr, &mfss), o, 0);
             }
             after_merge(&mut sweeps, tier.pick(3, 5), o);
+            sweeps.push(Sweep { name: "wide".into(), alphabet: wide_ops(true, true), depth: tier.pick(2, 3), cfgs: core_grid(&seeds[..1], &[Thr::All, Thr::Dead], &[0, MFS_BIG]), oracles: o, keys: wide_keys.clone(), trailing_reopens: 0, preload: vec![] });
         }
         "C14" => {
             let o = Oracles { c14: true, reopen_stable: true, ..Default::default() };
@@ -1002,6 +1026,7 @@ pub fn plan(prop: &str, tier: Tier, seeds: &[u64]) -> Vec<Sweep> {
                 deep("core", full.clone(), 5, 6, core_grid(seeds, &all_thr, &mfss), o, 0);
             }
             after_merge(&mut sweeps, tier.pick(3, 5), o);
+            sweeps.push(Sweep { name: "wide".into(), alphabet: wide_ops(true, true), depth: tier.pick(2, 3), cfgs: core_grid(&seeds[..1], &[Thr::All, Thr::Dead], &[0, MFS_BIG]), oracles: o, keys: wide_keys.clone(), trailing_reopens: 0, preload: vec![] });
         }
         _ => panic!("no E1 plan for {}", prop),
     }
